@@ -107,6 +107,17 @@ def opFn (j : Json) : Except String Json := do
     let a1 ← argStr j 1
     let a2 ← argListStr j 2
     return Json.mkObj [("r", jstr (Pinned.Funcs.metadata_doc a0 a1 a2))]
+  if name == "field_name" then
+    let a0 ← argStr j 0
+    let a1 ← argBool j 1
+    return Json.mkObj [("r", jstr (Pinned.Funcs.field_name a0 a1))]
+  if name == "method_void" then
+    let a0 ← argStr j 0
+    return Json.mkObj [("r", Json.bool (Pinned.Funcs.method_void a0))]
+  if name == "service_client_package_version" then
+    let a0 ← argListStr j 0
+    if !(Pinned.Funcs.service_client_package_version_ok a0) then return Json.mkObj [("r", Json.mkObj [("raised", Json.str "IndexError")])]
+    return Json.mkObj [("r", jstr (Pinned.Funcs.service_client_package_version a0))]
   if name == "import_str" then
     let a0 ← argStr j 0
     let a1 ← argStr j 1
